@@ -13,5 +13,5 @@ CONSTANTS
   Wk <- Wk1
   MaxNow = 1
   FIX = TRUE
-INVARIANTS Once CapOK WaitShape ListedAreArmed ClosedShape NoAccessToDeadSignal LatestWoken TimeoutNotEarly TryNeverWaits LockHolderRuns NoStuck NoLeak PerProducerFifo Fifo FifoNow
+INVARIANTS Once CapOK WaitShape ListedAreArmed ClosedShape DisconnectShape NoAccessToDeadSignal LatestWoken TimeoutNotEarly TryNeverWaits LockHolderRuns NoStuck NoLeak PerProducerFifo Fifo FifoNow
 CHECK_DEADLOCK FALSE
